@@ -602,7 +602,7 @@ def zmiOf (zr : Ref) (z : Zip) : ZMI :=
 for fewer than 12 elements (stable; ASSUMED: at most 12 zips per whole ref) -/
 def insertByIdx (x : ZMI) : List ZMI → List ZMI
   | [] => [x]
-  | y :: ys => if x.idx < y.idx then x :: y :: ys else y :: insertByIdx x ys
+  | y :: ys => if x.idx ≤ y.idx then x :: y :: ys else y :: insertByIdx x ys
 
 def sortByIdx : List ZMI → List ZMI
   | [] => []
@@ -734,7 +734,7 @@ def noMetaButZips (s : St) : Bool :=
 
 def insertPart (x : WPart) : List WPart → List WPart
   | [] => [x]
-  | y :: ys => if x.idx < y.idx then x :: y :: ys else y :: insertPart x ys
+  | y :: ys => if x.idx ≤ y.idx then x :: y :: ys else y :: insertPart x ys
 
 def sortParts : List WPart → List WPart
   | [] => []
